@@ -595,6 +595,62 @@ func genSelector(repo, out string) {
 		}
 	}
 
+	// the loops that carry the label queries of a List / Watch request: the client turns every query of the options
+	// into a wire query and sends them all; the server converts every wire query and hands them all to the state
+	rangeBodies := func(f *ast.File, recv, fn, over string) [][]string {
+		var res [][]string
+
+		fd := method(f, recv, fn)
+		if fd == nil || fd.Body == nil {
+			return nil
+		}
+
+		ast.Inspect(fd.Body, func(n ast.Node) bool {
+			if rs, ok := n.(*ast.RangeStmt); ok && src(rs.X) == over && src(rs.Key) == "_" && src(rs.Value) == "query" {
+				var body []string
+				for _, st := range rs.Body.List {
+					body = append(body, src(st))
+				}
+
+				res = append(res, body)
+			}
+
+			return true
+		})
+
+		return res
+	}
+
+	eq := func(a []string, b ...string) bool { return strings.Join(a, " ;; ") == strings.Join(b, " ;; ") }
+
+	srvF := parse(filepath.Join(repo, "pkg/state/protobuf/server/server.go"))
+	srvList := rangeBodies(srvF, "State", "List", "req.GetOptions().GetLabelQuery()")
+	srvWatch := rangeBodies(srvF, "State", "Watch", "req.GetOptions().GetLabelQuery()")
+	serverAll := len(srvList) == 1 && len(srvWatch) == 1 &&
+		eq(srvList[0], "labelOpts, err := ConvertLabelQuery(query.GetTerms())", "if err != nil { return err }", "opts = append(opts, state.WithLabelQuery(labelOpts...))") &&
+		eq(srvWatch[0], "var labelOpts []resource.LabelQueryOption", "labelOpts, err = ConvertLabelQuery(query.GetTerms())", "if err != nil { return err }",
+			"opts = append(opts, state.WatchWithLabelQuery(labelOpts...))")
+
+	cliF := parse(filepath.Join(repo, "pkg/state/protobuf/client/client.go"))
+	clientAll := true
+
+	for _, fn := range [][2]string{{"List", "return resource.List{}, err"}, {"WatchKind", "return err"}, {"WatchKindAggregated", "return err"}} {
+		bodies := rangeBodies(cliF, "Adapter", fn[0], "opts.LabelQueries")
+		fd := method(cliF, "Adapter", fn[0])
+
+		if len(bodies) != 1 || fd == nil ||
+			!eq(bodies[0], "labelQuery, err := transformLabelQuery(query)", "if err != nil { "+fn[1]+" }", "labelQueries = append(labelQueries, labelQuery)") ||
+			strings.Count(src(fd.Body), "LabelQuery: labelQueries,") != 1 ||
+			strings.Count(src(fd.Body), "labelQueries := make([]*v1alpha1.LabelQuery, 0, len(opts.LabelQueries))") != 1 ||
+			strings.Count(src(fd.Body), "labelQueries") != 4 {
+			clientAll = false
+		}
+	}
+
+	l.line("/-- client List / WatchKind / WatchKindAggregated: every label query of the options is transformed and sent, in order -/")
+	l.line("def clientForwardsEveryQuery : Bool := %s", leanBool(clientAll))
+	l.line("/-- server List / Watch: every label query of the request is converted and handed to the state, in order -/")
+	l.line("def serverForwardsEveryQuery : Bool := %s", leanBool(serverAll))
 	l.write(out, ns)
 }
 
